@@ -1,7 +1,7 @@
 //! Hand-written decoders from `arbitrary::Unstructured` to the structured cases of C12/C13/C14
 //! (derive(Arbitrary) is not available offline). Used by the libFuzzer target `filter_ops` and by
 //! the replay of its artifacts.
-use crate::props::{c02, c09, c10, c12, c13, c14, c15, c16};
+use crate::props::{c01, c02, c09, c10, c12, c13, c14, c15, c16};
 use crate::support::td::Scale;
 use crate::support::filters::{FCfg, KeySpec, RngSpec};
 use crate::support::hashers::HKind;
@@ -76,6 +76,32 @@ pub fn c12(u: &mut Unstructured) -> Result<c12::Case> {
         });
     }
     Ok(c12::Case { cfg, hk, rng: r1, rng2: r2, universe: uni, fresh_seed, ops })
+}
+
+pub fn c01(u: &mut Unstructured) -> Result<c01::Case> {
+    let cfg = match u.int_in_range(0u8..=4)? {
+        0 | 1 => cuckoo_cfg(u)?,
+        2 | 3 => quotient_cfg(u)?,
+        _ => FCfg::Bloom { m: u.int_in_range(1usize..=64)?, k: u.int_in_range(1usize..=8)? },
+    };
+    let hk = hkind(u)?;
+    let (r1, r2) = (rng(u)?, rng(u)?);
+    let uni = universe(u, 24)?;
+    let n = u.int_in_range(0usize..=80)?;
+    let mut ops = vec![];
+    for _ in 0..n {
+        ops.push(match u.int_in_range(0u8..=15)? {
+            0..=8 => c01::Op::Insert(u.arbitrary()?),
+            9..=11 => c01::Op::Delete(u.arbitrary()?),
+            12..=14 => {
+                let m = u.int_in_range(0usize..=12)?;
+                let keys = (0..m).map(|_| u.arbitrary()).collect::<Result<Vec<u16>>>()?;
+                c01::Op::Union(keys, if u.arbitrary::<bool>()? { u.int_in_range(0u8..=7)? } else { 0 }, u.int_in_range(0u8..=2)? == 0)
+            }
+            _ => c01::Op::Clear,
+        });
+    }
+    Ok(c01::Case { cfg, hk, rng: r1, rng2: r2, universe: uni, ops })
 }
 
 pub fn c13(u: &mut Unstructured) -> Result<c13::Case> {
